@@ -239,13 +239,26 @@ theorem marked_eq_of_pc {n : Notifier} (hn : NLoc n) (h : n.pc ≠ .mark) : n.ma
   simp only [Notifier.unm, List.drop_eq_nil_iff] at this
   have := hn.1; omega
 
-/-- `scanPick` finds nothing: nobody in the waitset has the context the notification accepts -/
-theorem scanPick_none_ctx {s : St} {c : Nat} (h : scanPick s (.ctx c) = none) :
-    ∀ (i : Nat) (sl : Sleeper), s.slp[i]? = some sl → sl.ctx = c → i ∉ s.waitset := by
+/-- `scanPick` finds nothing: nobody in the waitset has a context the notification accepts -/
+theorem scanPick_none_pred {s : St} {k : NKind} (hk : k.isPredAll = true) (h : scanPick s k = none) :
+    ∀ (i : Nat) (sl : Sleeper), s.slp[i]? = some sl → k.accepts sl.ctx = true → i ∉ s.waitset := by
   intro i sl hi hc hW
-  simp only [scanPick, List.find?_eq_none] at h
-  have := h i (List.mem_reverse.mpr hW)
-  simp [St.ctxOf, hi, hc] at this
+  cases k with
+  | ctx c =>
+    simp only [scanPick, List.find?_eq_none] at h
+    have := h i (List.mem_reverse.mpr hW)
+    simp only [NKind.accepts, beq_iff_eq] at hc
+    simp [St.ctxOf, hi, hc] at this
+  | leq c =>
+    simp only [scanPick, List.find?_eq_none] at h
+    have := h i (List.mem_reverse.mpr hW)
+    simp only [NKind.accepts, decide_eq_true_eq] at hc
+    simp [St.ctxOf, hi] at this
+    omega
+  | all => cases hk
+  | abort => cases hk
+  | one => cases hk
+  | onec c => cases hk
 
 theorem scanPick_none_onec {s : St} {c : Nat} (h : scanPick s (.onec c) = none) :
     ∀ (i : Nat) (sl : Sleeper), s.slp[i]? = some sl → sl.ctx = c → i ∉ s.waitset := by
@@ -264,6 +277,7 @@ theorem scanPick_mem {s : St} {k : NKind} {x : Nat} (h : scanPick s k = some x) 
   cases k with
   | ctx c => exact List.mem_reverse.mp (List.mem_of_find?_eq_some h)
   | onec c => exact List.mem_reverse.mp (List.mem_of_find?_eq_some h)
+  | leq c => exact List.mem_reverse.mp (List.mem_of_find?_eq_some h)
   | one => exact List.mem_of_mem_head? h
   | all => simp [scanPick] at h
   | abort => simp [scanPick] at h
@@ -278,7 +292,7 @@ theorem accepts_onec {c x : Nat} (h : (NKind.onec c).accepts x = true) : x = c :
 theorem pending_keep {n n' : Notifier} (hops : n'.ops = n.ops) {pc' : NPc} (hpc' : n'.pc = pc')
     (hcase : ((pc' = .fence ∨ pc' = .test ∨ pc' = .lock ∨ pc' = .epoch) ) ∨
              (pc' = .flush ∧ (n.kind = .all ∨ n.kind = .abort)) ∨
-             ((pc' = .scan ∨ pc' = .mark) ∧ ∃ c, n.kind = .ctx c) ∨
+             ((pc' = .scan ∨ pc' = .mark) ∧ n.kind.isPredAll = true) ∨
              (pc' = .scan ∧ ∃ c, n.kind = .onec c)) :
     ∀ c x, pendingFor n c x = true → pendingFor n' c x = true := by
   intro c x hp
@@ -289,12 +303,12 @@ theorem pending_keep {n n' : Notifier} (hops : n'.ops = n.ops) {pc' : NPc} (hpc'
     have hk : n.kind = k := by simp [Notifier.kind, heq]
     simp only [Bool.and_eq_true, beq_iff_eq] at hp
     obtain ⟨⟨hc, hacc⟩, _⟩ := hp
-    rcases hcase with e | ⟨e, h1⟩ | ⟨e, c0, h1⟩ | ⟨e, c0, h1⟩
+    rcases hcase with e | ⟨e, h1⟩ | ⟨e, h1⟩ | ⟨e, c0, h1⟩
     · rcases e with e | e | e | e <;> cases k <;> simp_all [NKind.accepts]
     · rw [hk] at h1
       rcases h1 with h1 | h1 <;> subst h1 <;> simp_all
-    · rw [hk] at h1; subst h1
-      rcases e with e | e <;> simp_all
+    · rw [hk] at h1
+      cases k <;> simp [NKind.isPredAll] at h1 <;> rcases e with e | e <;> simp_all
     · rw [hk] at h1; subst h1
       simp_all
   · cases hp
@@ -302,11 +316,11 @@ theorem pending_keep {n n' : Notifier} (hops : n'.ops = n.ops) {pc' : NPc} (hpc'
 /-- leaving the pending set of a `ctx` notification towards `unlock` when `scanPick` finds nothing -/
 theorem pending_lose {s : St} {n n' : Notifier} (hops : n'.ops = n.ops) {pc' : NPc} (hpc' : n'.pc = pc')
     (hcase : (pc' = .unlock ∧ ((n.kind = .all ∨ n.kind = .abort) → s.waitset = []) ∧
-              (∀ c, n.kind = .ctx c → scanPick s (.ctx c) = none) ∧
+              (n.kind.isPredAll = true → scanPick s n.kind = none) ∧
               (∀ c, n.kind = .onec c → scanPick s (.onec c) = none)) ∨
              ((pc' = .fence ∨ pc' = .test ∨ pc' = .lock ∨ pc' = .epoch) ) ∨
              (pc' = .flush ∧ (n.kind = .all ∨ n.kind = .abort)) ∨
-             ((pc' = .scan ∨ pc' = .mark) ∧ ∃ c, n.kind = .ctx c) ∨
+             ((pc' = .scan ∨ pc' = .mark) ∧ n.kind.isPredAll = true) ∨
              (pc' = .scan ∧ ∃ c, n.kind = .onec c)) :
     ∀ c x, pendingFor n c x = true → pendingFor n' c x = true ∨
         ∀ (i : Nat) (sl : Sleeper), s.slp[i]? = some sl → sl.ctx = x → i ∉ s.waitset := by
@@ -318,14 +332,19 @@ theorem pending_lose {s : St} {n n' : Notifier} (hops : n'.ops = n.ops) {pc' : N
     have hk : n.kind = k := by simp [Notifier.kind, heq]
     simp only [Bool.and_eq_true, beq_iff_eq] at hp
     obtain ⟨⟨hc, hacc⟩, _⟩ := hp
-    rcases hcase with ⟨e, h1, h2, h3⟩ | e | ⟨e, h1⟩ | ⟨e, c0, h1⟩ | ⟨e, c0, h1⟩
+    rcases hcase with ⟨e, h1, h2, h3⟩ | e | ⟨e, h1⟩ | ⟨e, h1⟩ | ⟨e, c0, h1⟩
     · right
       cases k with
       | all => intro i sl _ _; rw [h1 (Or.inl hk)]; simp
       | abort => intro i sl _ _; rw [h1 (Or.inr hk)]; simp
       | ctx c0 =>
-        have := accepts_ctx hacc; subst this
-        exact scanPick_none_ctx (h2 _ hk)
+        rw [hk] at h2
+        intro i sl hi hx; subst hx
+        exact scanPick_none_pred (k := .ctx c0) rfl (h2 rfl) i sl hi hacc
+      | leq c0 =>
+        rw [hk] at h2
+        intro i sl hi hx; subst hx
+        exact scanPick_none_pred (k := .leq c0) rfl (h2 rfl) i sl hi hacc
       | onec c0 =>
         have := accepts_onec hacc; subst this
         exact scanPick_none_onec (h3 _ hk)
@@ -336,8 +355,8 @@ theorem pending_lose {s : St} {n n' : Notifier} (hops : n'.ops = n.ops) {pc' : N
       rw [hk] at h1
       rcases h1 with h1 | h1 <;> subst h1 <;> simp_all
     · left
-      rw [hk] at h1; subst h1
-      rcases e with e | e <;> simp_all
+      rw [hk] at h1
+      cases k <;> simp [NKind.isPredAll] at h1 <;> rcases e with e | e <;> simp_all
     · left
       rw [hk] at h1; subst h1
       simp_all
